@@ -68,8 +68,16 @@ class Report:
         if len(self.samples) < 40:
             self.samples.append(s)
 
+    def finish_subrun(self):
+        """self-validation sub-run on a scratch copy: no evidence, no replay files, no VIOLATION lines"""
+        keys = sorted({v["key"] for v in self.violations if v["key"] not in self.known})
+        print("SUBRUN-KEYS: " + json.dumps(keys))
+        return 1 if keys else 0
+
     # -- finish -----------------------------------------------------------------
     def finish(self):
+        if getattr(self, "subrun", False):
+            return self.finish_subrun()
         real = []
         out_lines = []
         for v in self.violations:
